@@ -240,7 +240,7 @@ def run_tmp(case, ctx):
             ctx.extra["fault_runs"] = ctx.extra.get("fault_runs", 0) + 1
 
 
-MODES = ["r", "rb", "r+", "w", "wb", "a", "w+"]
+MODES = ["r", "rb", "r+", "w", "wb", "a", "w+", "rb+", "r+b", "wb+", "ab+", "br", "a+", "rt"]
 
 
 def open_fds_under(d):
@@ -327,7 +327,7 @@ def run_files(case, ctx):
                         handles.append(h)
                         if h.closed:
                             fail("handle-closed-inside", "handle of %s is closed inside the context" % q)
-                        if getattr(h, "name", q) != q or getattr(h, "mode", mode) != mode:
+                        if getattr(h, "name", q) != q or ("b" in getattr(h, "mode", mode)) != ("b" in mode):
                             fail("handle-wrong", "handle name/mode %r/%r for %r/%r" % (h.name, h.mode, q, mode))
                     for pos, o in enumerate(body):
                         if p == pos:
@@ -335,9 +335,9 @@ def run_files(case, ctx):
                         if not paths:
                             continue
                         h = pool[paths[o[1] % len(paths)]]
-                        if o[0] == "read" and mode in ("r", "rb", "r+", "w+"):
+                        if o[0] == "read" and ("r" in mode or "+" in mode):
                             h.read(5)
-                        elif o[0] == "write" and mode != "r" and mode != "rb":
+                        elif o[0] == "write" and any(ch in mode for ch in "wa+"):
                             h.write(b"x" if "b" in mode else "x")
                     if p == len(body):
                         raise Boom(len(body))
